@@ -545,6 +545,9 @@ func init() {
 		jobs = append(jobs, vx.Job{Scenario: "mux.fault", Params: vx.P("fault", "reset0", "frames", "1", "srvwrite", "1", "delay", "1"), Bound: b(2, 3), Weight: 9})
 		jobs = append(jobs, vx.Job{Scenario: "mux.fault", Params: vx.P("fault", "reset0", "frames", "2", "wlimit", "1", "srvwrite", "1", "delay", "1"), Bound: b(1, 2), Weight: 9})
 		jobs = append(jobs, vx.Job{Scenario: "mux.fault", Params: vx.P("fault", "reset01", "frames", "1", "conns", "3", "delay", "1"), Bound: b(2, 3), Weight: 8})
+		// teardown while a write is parked by back-pressure on a connection the peer no longer drains
+		jobs = append(jobs, vx.Job{Scenario: "mux.stalledclose", Params: vx.P("tls", "0"), Bound: b(2, 4), Weight: 4})
+		jobs = append(jobs, vx.Job{Scenario: "mux.stalledclose", Params: vx.P("tls", "1"), Bound: b(2, 4), Weight: 4})
 		// record-layer connections with back-pressure: a write parked on one connection while another fails
 		jobs = append(jobs, vx.Job{Scenario: "mux.fault", Params: vx.P("fault", "reset1", "frames", "2", "tls", "1", "conns", "2", "wlimit", "1", "delay", "1"), Bound: b(1, 2), Weight: 8})
 		// long-lived sessions: a frame for a long-closed stream after thousands of stream closures
